@@ -198,6 +198,12 @@ class GenericCallAdapter(Adapter):
 
         if len(old_node.args) < len(new_args):
             for insert_pos, value in list(enumerate(new_args))[len(old_node.args) :]:
+                if value.is_default and all(
+                    arg.is_default for arg in new_args[insert_pos:]
+                ):
+                    # defaultdict(list) has not to become defaultdict(list, {})
+                    continue
+                result_args.append(value.value)
                 yield CallArg(
                     flag="fix",
                     file=self.context.file._source,
@@ -530,7 +536,10 @@ class DefaultDictAdapter(GenericCallAdapter):
     def arguments(cls, value: defaultdict):
 
         return (
-            [Argument(value=value.default_factory), Argument(value=dict(value))],
+            [
+                Argument(value=value.default_factory),
+                Argument(value=dict(value), is_default=len(value) == 0),
+            ],
             {},
         )
 
